@@ -1,1 +1,155 @@
-import IweModel.Props.C20
+/-
+C04 — incremental edits leave the same library as a fresh start.
+Refinement to the abstract spec `Library` (`Spec/Library.lean`): an invariant `Inv g lib` ties the
+concrete graph (arena with tombstones, accumulating index, caches) to the latest documents; it is
+established by `import`, preserved by every `update_key`, and every answer is a function of `lib`
+alone.  Hence a graph reached by any history and a graph freshly imported from the final texts —
+both satisfying `Inv` for the same library — answer identically.
+The invariant is defined in `IweModel/Lemmas/Refine.lean`; helper lemmas live in
+`IweModel/Lemmas/RefineInv.lean` (preservation) and `IweModel/Lemmas/RefineObs.lean` (observations).
+-/
+import IweModel.Lemmas.RefineObs
+
+namespace Iwe.C04
+open Iwe
+
+/-- `import` of files with pairwise distinct keys establishes the invariant for the library of those files -/
+theorem inv_import (ext : String) (state : List (String × Document)) (g : Graph)
+    (hd : (state.map fun p => keyFromFileName p.1).Nodup)
+    (hok : Graph.importDocs ext state = .ok g) :
+    Inv g (state.map fun p => (keyFromFileName p.1, p.2)) ∧ g.ext = ext := by
+  exact Inv.import hd hok
+
+/-- every edit of an existing note and every insertion of a new note preserves the invariant, for
+the library in which that note's document is replaced / added -/
+theorem inv_updateKey (g g' : Graph) (lib : Library) (key : String) (d : Document)
+    (h : Inv g lib) (hok : g.updateKey key d = .ok g') :
+    Inv g' (assocSet lib key d) ∧ g'.ext = g.ext := by
+  exact h.updateKey hok
+
+/-- the library after a history -/
+def finalLib (lib : Library) : List (String × Document) → Library
+  | [] => lib
+  | (k, d) :: rest => finalLib (assocSet lib k d) rest
+
+/-- **every reachable state satisfies the invariant for the latest texts** -/
+theorem inv_reachable (g g' : Graph) (lib : Library) (steps : List (String × Document))
+    (h : Inv g lib) (hok : C20.runHistory g steps = .ok g') :
+    Inv g' (finalLib lib steps) ∧ g'.ext = g.ext := by
+  induction steps generalizing g lib with
+  | nil => simp [C20.runHistory] at hok; subst hok; exact ⟨h, rfl⟩
+  | cons p rest ih =>
+    obtain ⟨k, d⟩ := p
+    simp only [C20.runHistory] at hok
+    cases h1 : g.updateKey k d with
+    | error e => rw [h1] at hok; simp at hok
+    | ok g1 =>
+      rw [h1] at hok
+      obtain ⟨hinv1, hext1⟩ := inv_updateKey g g1 lib k d h h1
+      obtain ⟨hinv, hext⟩ := ih g1 (assocSet lib k d) hinv1 hok
+      exact ⟨hinv, by rw [hext, hext1]⟩
+
+/-- the invariant only depends on the library as a finite map -/
+theorem inv_congr (g : Graph) (lib lib' : Library) (h : Inv g lib)
+    (hnd : (lib'.map (·.1)).Nodup) (heq : ∀ k, assocGet lib k = assocGet lib' k) : Inv g lib' := by
+  obtain ⟨segs, hi⟩ := inv_iff.1 h
+  exact inv_iff.2 ⟨segs, hi.congr hnd heq⟩
+
+/-- **formatted text is a function of the latest documents** -/
+theorem toMarkdown_spec (g : Graph) (lib : Library) (k : String) (h : Inv g lib) :
+    g.toMarkdown k = Spec.markdown g.ext lib k := by
+  obtain ⟨segs, hi⟩ := inv_iff.1 h
+  exact hi.toMarkdown k
+
+/-- **link titles are a function of the latest documents** (no stale title survives) -/
+theorem title_spec (g : Graph) (lib : Library) (k : String) (h : Inv g lib) :
+    g.title k = Spec.titleOf lib k := by
+  obtain ⟨segs, hi⟩ := inv_iff.1 h
+  exact hi.titles k
+
+/-- **block backlinks are a function of the latest documents** (no ghost, none missing): the live
+reference nodes to `K`, as (note, position in the note), are exactly the reference blocks found by
+scanning the documents; each is reported once. -/
+theorem blockBacklinks_spec (g : Graph) (lib : Library) (K : String) (h : Inv g lib) :
+    (∀ p, p ∈ (g.blockReferencesTo K).map g.place ↔ p ∈ (Spec.blockBacklinks lib K).map some)
+    ∧ ((g.blockReferencesTo K).map g.place).Nodup := by
+  obtain ⟨segs, hi⟩ := inv_iff.1 h
+  exact hi.backlinks Prod.fst
+    (fun b c ts => by rw [Graph.indexForest_shift ts b c])
+    (fun b ts K id hm => Graph.indexForest_range ts b K id (Or.inl hm))
+    g.blockRefs hi.blockLive K
+
+/-- the same for links inside paragraphs, headings and list items -/
+theorem inlineBacklinks_spec (g : Graph) (lib : Library) (K : String) (h : Inv g lib) :
+    (∀ p, p ∈ (g.inlineReferencesTo K).map g.place ↔ p ∈ (Spec.inlineBacklinks lib K).map some)
+    ∧ ((g.inlineReferencesTo K).map g.place).Nodup := by
+  obtain ⟨segs, hi⟩ := inv_iff.1 h
+  exact hi.backlinks Prod.snd
+    (fun b c ts => by rw [Graph.indexForest_shift ts b c])
+    (fun b ts K id hm => Graph.indexForest_range ts b K id (Or.inr hm))
+    g.inlineRefs hi.inlineLive K
+
+/-- **the block found at a line is a function of the latest documents**: `get_node_id_at` answers
+from the line ranges of the note's current forest, re-based at the note's root -/
+theorem nodeIdAt_spec (g : Graph) (lib : Library) (k : String) (line b : Nat) (f : List BTree)
+    (h : Inv g lib) (hb : assocGet g.keys k = some b) (hf : Spec.forestOf lib k = some f) :
+    g.nodeIdAt k line =
+      .ok (((Arena.rangesForest (b + 1) f).reverse.find? fun p => p.2.start ≤ line && line < p.2.stop).map (·.1)) := by
+  obtain ⟨segs, hi⟩ := inv_iff.1 h
+  obtain ⟨s, hs, rfl, rfl⟩ := (hi.keys k b).1 (assocGet_some_mem hb)
+  rw [hi.forests s hs] at hf
+  simp only [Option.some.injEq] at hf
+  subst hf
+  simp only [Graph.nodeIdAt, hi.nodesMap s hs]
+
+/-- **C04, main statement.** Start from any imported library, apply any history of edits and
+insertions; import the final texts afresh.  Both graphs give the same formatted text and title for
+every note, and the same backlinks (as places) for every target. -/
+theorem incremental_eq_fresh (ext : String) (state : List (String × Document))
+    (steps : List (String × Document)) (g0 g gf : Graph) (fresh : List (String × Document))
+    (hd : (state.map fun p => keyFromFileName p.1).Nodup)
+    (h0 : Graph.importDocs ext state = .ok g0)
+    (hrun : C20.runHistory g0 steps = .ok g)
+    (hfd : (fresh.map fun p => keyFromFileName p.1).Nodup)
+    (hfresh : ∀ k, assocGet (fresh.map fun p => (keyFromFileName p.1, p.2)) k
+                 = assocGet (finalLib (state.map fun p => (keyFromFileName p.1, p.2)) steps) k)
+    (hf : Graph.importDocs ext fresh = .ok gf) :
+    (∀ k, g.toMarkdown k = gf.toMarkdown k)
+    ∧ (∀ k, g.title k = gf.title k)
+    ∧ (∀ K p, p ∈ (g.blockReferencesTo K).map g.place ↔ p ∈ (gf.blockReferencesTo K).map gf.place)
+    ∧ (∀ K p, p ∈ (g.inlineReferencesTo K).map g.place ↔ p ∈ (gf.inlineReferencesTo K).map gf.place) := by
+  obtain ⟨hinv0, hext0⟩ := inv_import ext state g0 hd h0
+  obtain ⟨hinv, hext⟩ := inv_reachable g0 g _ steps hinv0 hrun
+  obtain ⟨hinvf0, hextf⟩ := inv_import ext fresh gf hfd hf
+  have hlnd : ((finalLib (state.map fun p => (keyFromFileName p.1, p.2)) steps).map (·.1)).Nodup := by
+    obtain ⟨segs, hi⟩ := inv_iff.1 hinv
+    exact hi.libNodup
+  have hinvf := inv_congr gf _ _ hinvf0 hlnd hfresh
+  refine ⟨?_, ?_, ?_, ?_⟩
+  · intro k
+    rw [toMarkdown_spec g _ k hinv, toMarkdown_spec gf _ k hinvf, hext, hext0, hextf]
+  · intro k
+    rw [title_spec g _ k hinv, title_spec gf _ k hinvf]
+  · intro K p
+    rw [(blockBacklinks_spec g _ K hinv).1 p, (blockBacklinks_spec gf _ K hinvf).1 p]
+  · intro K p
+    rw [(inlineBacklinks_spec g _ K hinv).1 p, (inlineBacklinks_spec gf _ K hinvf).1 p]
+
+/-- non-vacuity: a two-note library, one edit that removes the heading of `b` and the reference to
+it: evaluated, the incremental graph and the fresh one agree on text, title and backlinks. -/
+example :
+    let a1 : Document := ⟨[.header ⟨0, 1⟩ 1 [.str "A"], .para ⟨2, 3⟩ [.link "b" "" .regular [.str "x"]]], none⟩
+    let b1 : Document := ⟨[.header ⟨0, 1⟩ 1 [.str "B"]], none⟩
+    let b2 : Document := ⟨[.para ⟨0, 1⟩ [.str "no heading"]], none⟩
+    (match Graph.importDocs "" [("a", a1), ("b", b1)] with
+     | .ok g0 =>
+       match g0.updateKey "b" b2, Graph.importDocs "" [("a", a1), ("b", b2)] with
+       | .ok g, .ok gf =>
+         (g.title "b").isNone && (gf.title "b").isNone && (g0.title "b") == some "B"
+         && (g.blockReferencesTo "b").map g.place == (gf.blockReferencesTo "b").map gf.place
+         && ((g.blockReferencesTo "b").length == 1)
+       | _, _ => false
+     | .error _ => false) = true := by
+  decide
+
+end Iwe.C04
